@@ -23,6 +23,8 @@ ArithOps(t) == CASE t \in {"int", "uint"} -> {"+", "-", "*", "/", "%"} [] t = "d
                  [] t \in {"string", "bytes", "list"} -> {"+"} [] t = "duration" -> {"+", "-"} [] OTHER -> {}
 OrderedT == {"int", "uint", "double", "string", "bytes", "bool", "timestamp", "duration"}
 X == Var("x")
+\* no / one / several / only matching elements: every exit of the macros' loops
+MacroLists == L2("list") \cup { Lit(LI(<<2, 3, 1>>)), Lit(LI(<<0, 1>>)), Lit(LI(<<5, 5, 5>>)), Lit(LI(<<7>>)) }
 Roots ==
      UNION { { Bin(o, a, b) : o \in ArithOps(t), a \in L2(t), b \in L2(t) } : t \in Types }
   \cup { Bin(o, a, b) : o \in {"+", "-"}, a \in L2("timestamp"), b \in L2("duration") }
@@ -38,8 +40,8 @@ Roots ==
   \cup { MCall(a, f, <<b>>) : f \in {"contains", "startsWith", "endsWith"}, a \in L2("string"), b \in L2("string") }
   \cup { Call("size", <<a>>) : a \in L2("string") \cup L2("bytes") \cup L2("list") \cup L2("map") }
   \cup { MCall(a, "size", <<>>) : a \in L2("string") \cup L2("list") }
-  \cup { Macro(m, l, "x", Bin(">", X, Lit(I(1)))) : m \in {"all", "exists", "exists_one", "filter"}, l \in L2("list") }
-  \cup { Macro("map", l, "x", b) : l \in L2("list"), b \in {Bin("*", X, Lit(I(2))), Bin(">", X, Lit(I(1))), Lit(S(<<97>>))} }
+  \cup { Macro(m, l, "x", p) : m \in {"all", "exists", "exists_one", "filter"}, l \in MacroLists, p \in {Bin(">", X, Lit(I(1))), Lit(Bool(TRUE)), Bin("<", X, Lit(I(0)))} }
+  \cup { Macro("map", l, "x", b) : l \in MacroLists, b \in {Bin("*", X, Lit(I(2))), Bin(">", X, Lit(I(1))), Lit(S(<<97>>))} }
   \cup { ListE(<<a>>) : a \in L2("int") \cup L2("string") } \cup { MapE(<< <<a, b>> >>) : a \in L2("string"), b \in L2("int") }
   \cup UNION { L2(t) : t \in Types }
   \cup { Call("type", <<a>>) : a \in UNION { L2(t) : t \in Types } }
